@@ -183,12 +183,44 @@ def make_variable(spec, name):
     raise ValueError(k)
 
 
-_TASK_CLASSES = {}
+# objectives by name (picklable: process-mode workers re-import this module); in-process call logs by id
+OBJECTIVE_TABLE = {"zero": lambda x: 0.0}
+CALL_LOGS = {}
+
+_GenTask = None
 
 
-def make_task(specs, objective=None, **kw):
-    """a Task over the given declarations (variables named v0, v1, …) with the given objective (default: constant 0)."""
-    import pyvolutionary as pv
-    f = objective or (lambda self, x: 0.0)
-    cls = type("GenTask", (pv.Task,), {"objective_function": lambda self, x: f(self, x)})
-    return cls(variables=[make_variable(s, f"v{i}") for i, s in enumerate(specs)], **kw)
+def gen_task_class():
+    """module-level Task subclass whose objective is looked up by name in `data` (so the task pickles into worker processes);
+    every call can be logged: in-process into CALL_LOGS[data['logid']], and/or appended to data['callfile'] (O_APPEND, worker-safe)"""
+    global _GenTask
+    if _GenTask is None:
+        import pyvolutionary as pv
+
+        class GenTask(pv.Task):
+            def objective_function(self, x):
+                d = self.data or {}
+                log = CALL_LOGS.get(d.get("logid"))
+                if log is not None:
+                    log.append(list(x))
+                cf = d.get("callfile")
+                if cf:
+                    from . import trace
+                    import json as _json
+                    with open(cf, "a") as fh:
+                        fh.write(_json.dumps(trace._enc_pos(x)) + "\n")
+                return OBJECTIVE_TABLE[d.get("objective", "zero")](x)
+
+        GenTask.__module__ = __name__
+        GenTask.__qualname__ = "GenTask"
+        globals()["GenTask"] = GenTask
+        _GenTask = GenTask
+    return _GenTask
+
+
+def make_task(specs, objective="zero", data=None, **kw):
+    """a Task over the given declarations (variables named v0, v1, …) with the named objective (default: constant 0)."""
+    cls = gen_task_class()
+    d = {"objective": objective}
+    d.update(data or {})
+    return cls(variables=[make_variable(s, f"v{i}") for i, s in enumerate(specs)], data=d, **kw)
